@@ -65,6 +65,8 @@ def describe(fa, S, op, depth=0):
         if "int" in k:
             return str(k["int"])
         if "str" in k:
+            if k["str"].startswith("assertion failed"):
+                return "'assertion failed'"      # the asserted expression's text is not part of the key
             return repr(k["str"])[:30]
         return "const"
     pl = op_place(op)
@@ -771,6 +773,14 @@ def check_guard(ctx, crate, E, g):
             fa, ok_b, err_b, map_calls, stores = r_map.mapall(sub, Em, crate)
             sub.obs = []
             r_map.maplen(sub, Em, crate, fa, ok_b, map_calls)
+        elif g["rule"] == "LATTICE":
+            import r_misc
+            sub.obs = []
+            r_misc.lattice_shape(sub)
+        elif g["rule"] == "UNKFALL":
+            import r_cand
+            sub.obs = []
+            r_cand.unkfall(sub)
         elif g["rule"] == "FEATSPAN":
             import r_feat
             sub.obs = []
@@ -1069,8 +1079,8 @@ def run(ctx):
         ctx.listed("PANIC", "stale_table_entries", k)
     ctx.assume("dependency calls (csv-core, crawdad, regex, bincode, hashbrown, std) are opaque: "
                "their documented contracts are trusted")
-    ctx.assume("the tokenization path is not audited: its indexings are safe only by value "
-               "invariants established in the builder")
+    ctx.assume("the tokenization path is audited separately (TOKPANIC): its indexings are safe "
+               "by value invariants established in the builder, named per site in the table")
 
 
 def run_narrow(ctx, only=None, casts=True):
@@ -1172,6 +1182,107 @@ def run_narrow_lattice(ctx):
 
 def run_narrow_dict(ctx):
     run_narrow(ctx, lambda fn: "tokenizer::" not in fn and "token::" not in fn)
+
+
+def _tok_scan(ctx):
+    crate = ctx.facts("A").lib
+    E = Effects(crate)
+    cg = CallGraph(crate)
+    roots = [p for p, f in crate.fns.items()
+             if f.body and f.j.get("impl_self_adt") in ("vibrato::tokenizer::worker::Worker",
+                                                        "vibrato::token::Token")]
+    reach = cg.reachable(roots)
+    builder = set(cg.reachable(ENTRY))
+    fns = {p: c for p, c in reach.items() if p not in builder}
+    out = []
+    for s in enumerate_sites(crate, E, fns):
+        r = discharge(crate, E, s)
+        if r is None and s.kind == "cast":
+            fa = E.fa(s.fn)
+            rv = s.data["rv"]
+            rr = root_of(fa, rv["op"])
+            if rr[0] == "rv" and rr[1]["k"] == "binop":
+                c = const_eval(fa, rr[1]["b"])
+                fb, tb = INT_BITS.get(rv["from_ty"], 64), INT_BITS.get(rv["ty"], 64)
+                if rr[1]["op"] == "Shr" and c is not None and fb - c <= tb:
+                    r = ("SHIFT", "only %d bits remain after the shift" % (fb - c))
+                if rr[1]["op"] == "BitAnd" and c is not None and c < (1 << tb):
+                    r = ("MASK", "masked to %d bits" % tb)
+        out.append((s, r))
+    return crate, E, reach, fns, out
+
+
+def tok_sites(ctx):
+    """Keys of the undischarged sites of the tokenization path (for spec/gen_panic_table.py)."""
+    return [s.key for s, r in _tok_scan(ctx)[4] if r is None]
+
+
+def run_tok(ctx):
+    """TOKPANIC (C10 second clause, C01): the PANIC audit applied to the functions below the
+    Worker / Token API that the builders do not reach. A returned dictionary must tokenize every
+    string without panicking or reading out of range; the sites rest on value invariants of the
+    dictionary and the lattice, each named in the table and tied to the structural rule that
+    establishes it (ids verified before use, lattice shape, at-least-one-candidate, unk.def
+    size). A site that is neither discharged nor tabled is reported."""
+    crate, E, reach, fns, scanned = _tok_scan(ctx)
+    ctx.floor("TOKPANIC", "functions on the tokenization path outside the builders", len(fns), 30)
+    ctx.floor("TOKPANIC", "potential panic / wrap sites", len(scanned), 90)
+    entries = {e["key"]: e for e in load_table()["entries"]}
+    guard_cache = {}
+    tags = {}
+    for s, r in scanned:
+        chain = " <- ".join(x.split("::")[-1] for x in reach.get(s.fn, (s.fn,))[-3:])
+        if r is not None:
+            tags[r[0]] = tags.get(r[0], 0) + 1
+            ctx.ob("TOKPANIC", s.key, True, s.loc, "%s in %s: discharged by %s (%s)" % (
+                s.desc, s.fn.split("::")[-1], r[0], r[1]), {"reach": chain})
+            continue
+        e = entries.get("TOK|" + s.key)
+        if e is not None:
+            ok, gtxt = True, ""
+            if e.get("guard"):
+                gk = json.dumps(e["guard"], sort_keys=True)
+                if gk not in guard_cache:
+                    guard_cache[gk] = check_guard(ctx, crate, E, e["guard"])
+                ok, gtxt = guard_cache[gk]
+            tags["TABLE"] = tags.get("TABLE", 0) + 1
+            ctx.ob("TOKPANIC", s.key, ok, s.loc,
+                   "%s in %s: %s%s" % (s.desc, s.fn.split("::")[-1], e["reason"],
+                                       (" [guard: %s]" % gtxt[:160]) if gtxt else "") if ok else
+                   "%s in %s is only safe because of a guard that no longer holds: %s (%s)"
+                   % (s.desc, s.fn.split("::")[-1], gtxt, e["reason"]), {"reach": chain})
+            continue
+        ctx.ob("TOKPANIC", s.key, False, s.loc,
+               "potential panic/wrap `%s` (%s) in %s on the tokenization path (%s) is neither "
+               "discharged structurally nor justified in spec/panic_table.json: an accepted "
+               "dictionary or an input string may panic or read out of range here"
+               % (s.desc, s.kind, s.fn, chain), {"reach": chain})
+    for k, v in sorted(tags.items()):
+        ctx.count("TOKPANIC", "discharged by " + k, v)
+    ctx.assume("TOKPANIC: the table reasons name value invariants (lattice connectivity, trie "
+               "postings, table sizes) that are argued, not proved; the guards attached to them "
+               "are re-verified on every run")
+
+
+def run_costsum(ctx):
+    """COSTSUM (C02): every overflow-checked i32 addition of path / connection / word costs on
+    the tokenization path. total_cost is the accumulated cost only while these sums stay inside
+    32 bits; each site is listed (none is discharged structurally: the operands are sums over
+    the sentence)."""
+    crate, E, reach, fns, scanned = _tok_scan(ctx)
+    n = 0
+    for s, r in scanned:
+        if s.kind != "assert:Overflow" or r is not None:
+            continue
+        fa = E.fa(s.fn)
+        if overflow_type(fa, s.data["term"]) != "i32":
+            continue
+        n += 1
+        ctx.ob("COSTSUM", s.key, False, s.loc,
+               "i32 sum of costs %s in %s can overflow: the accumulated cost of a long or "
+               "expensive path leaves the 32-bit range, total_cost wraps (release) or the "
+               "addition panics (overflow checks on)" % (s.desc, s.fn))
+    ctx.floor("COSTSUM", "i32 cost sums on the tokenization path", n, 3)
 
 
 def run_narrow_connector(ctx):
